@@ -404,6 +404,46 @@ theorem compress_sound (axis : Option Int) (x c : ITy) (vx vc : RtVal) (k : Nat)
               simp only [Option.some.injEq] at hr; subst hr
               simp [conformsAll, conforms, tensor, hex, dimsOk_set_anon i k hsx]
 
+/-- The repaired Compress routine (`inferCompressFixed`: a vector for an input of unknown rank when no
+    axis is given) is sound as well — whichever of the two variants the source implements is covered. -/
+theorem compress_fixed_sound (axis : Option Int) (x c : ITy) (vx vc : RtVal) (k : Nat) (outs : List ITy)
+    (w : List RtVal) (hi : inferCompressFixed axis x c = .ok outs) (hcx : conforms vx x = true)
+    (hcc : conforms vc c = true) (hr : rtCompress axis k vx = some w) : conformsAll w outs = true := by
+  rcases x with _ | ⟨e, s⟩
+  · exact compress_sound axis none c vx vc k outs w (by simpa [inferCompressFixed, inferCompress] using hi) hcx hcc hr
+  rcases c with _ | ct
+  · exact compress_sound axis (some ⟨e, s⟩) none vx vc k outs w (by simpa [inferCompressFixed, inferCompress] using hi) hcx hcc hr
+  rcases s with _ | ds
+  · -- unknown rank
+    obtain ⟨xe, xs⟩ := vx
+    simp only [conforms, Bool.and_eq_true, beq_iff_eq] at hcx
+    obtain ⟨hex, -⟩ := hcx
+    unfold inferCompressFixed at hi
+    simp only at hi
+    split at hi
+    · simp at hi
+    · rcases axis with _ | a
+      · simp only at hi
+        split at hi
+        · simp at hi
+        · simp only [Res.ok.injEq] at hi; subst hi
+          simp only [rtCompress, Option.some.injEq] at hr; subst hr
+          simp [conformsAll, conforms, tensor, dimsOk, dimOk, hex]
+      · simp only [Res.ok.injEq] at hi; subst hi
+        simp only [rtCompress] at hr
+        split at hr
+        · simp at hr
+        · simp only [Option.some.injEq] at hr; subst hr
+          simp [conformsAll, conforms, hex]
+  · -- known rank: the routine is unchanged
+    have : inferCompress axis (some ⟨e, some ds⟩) (some ct) = .ok outs := by
+      unfold inferCompressFixed at hi
+      simp only at hi
+      split at hi
+      · simp at hi
+      · exact hi
+    exact compress_sound axis _ _ vx vc k outs w this hcx hcc hr
+
 /-! ## `_strip_dim_symbol`, inline -/
 
 /-- Forgetting symbolic dims only weakens a type. -/
